@@ -1,11 +1,14 @@
 SPECIFICATION Spec
 CONSTANTS
-  Layouts <- LayoutsQuick
+  Layouts <- LayoutsFormer
   DangIds <- DangQuick
   Starts = {1, 2, 5}
   DevChain = TRUE
   DevDang = TRUE
   DevUnder = TRUE
+  DevDup = TRUE
+  DevClash = TRUE
+  DevBmDang = TRUE
   Allowed = {"ok", "bookmark.chain", "dangling.capture", "dangling.capture+bookmark.chain", "dangling.capture.pageorder", "dangling.capture.pageorder+bookmark.chain", "dangling.capture+dangling.capture.pageorder", "dangling.capture+dangling.capture.pageorder+bookmark.chain", "panic.empty0"}
   Emit = TRUE
   EmitMod = 1
